@@ -6,6 +6,7 @@ fn main() {
     let args = Args::parse();
     quiet_panics();
     let want_shadow = args.u64("shadow", 1) == 1 && !cfg!(miri);
+    shadow::set_fill(args.u64("fill", 0) as u8);
     shadow::enable(want_shadow);
     if want_shadow {
         install_crash_reporter();
